@@ -76,6 +76,9 @@ pub fn alphabet() -> Vec<Op> {
     }
     a.push(Op::Fetch(vec![1, 2]));
     a.push(Op::Fetch(vec![3, 1]));
+    // three ids: two of one shard (for 2 shards: 1 and 3) followed by one of another, and the other way round
+    a.push(Op::Fetch(vec![1, 3, 2]));
+    a.push(Op::Fetch(vec![2, 3, 1]));
     for (d, s) in [(1u64, 2u64), (2, 1), (1, 3), (3, 3), (2, 3)] {
         for v in 0..3u8 {
             a.push(Op::MergeOwned(d, s, v));
